@@ -137,7 +137,44 @@ def one_case(ctx, a, b, check_model=True, same_mtime=False):
     return None
 
 
+def multi_case(ctx, pairs, rounds=2):
+    """Several (A, B) pairs whose targets have the same base name in different directories, synchronised one after the other in ONE
+    process, the whole list `rounds` times: every synchronisation must give what it gives on its own."""
+    with scratch() as d:
+        paths = []
+        for k, (a, b) in enumerate(pairs):
+            os.makedirs(os.path.join(d, "m%d" % k, "src"))
+            A = os.path.join(d, "m%d" % k, "Impl.cpp")
+            B = os.path.join(d, "m%d" % k, "src", "Impl.cpp")
+            open(A, "wb").write(a)
+            open(B, "wb").write(b)
+            paths.append((A, B))
+        for r in range(rounds):
+            for k, ((a, b), (A, B)) in enumerate(zip(pairs, paths)):
+                with kj.quiet():
+                    Generate.FileSync(A, B)
+                got = open(B, "rb").read()
+                exp = sync_spec(a, b)
+                if got != exp:
+                    return {"pairs": [[a, b] for a, b in pairs], "multi": True, "round": r, "pair": k, "got": got, "expected": exp,
+                            "detail": "pair %d, round %d of a list of synchronisations in one process: B differs from B with shared bodies replaced" % (k, r),
+                            "finding_key": "sync"}
+                for k2, ((a2, _b2), (A2, _B2)) in enumerate(zip(pairs, paths)):
+                    if open(A2, "rb").read() != a2:
+                        return {"pairs": [[a, b] for a, b in pairs], "multi": True, "detail": "a source file was modified", "finding_key": "sync"}
+    return None
+
+
 def run(ctx):
+    for i in range(ctx.budget(12, 300)):
+        rng = ctx.rng
+        names = rng.sample(NAMES, rng.randint(1, 4))
+        pairs = [(gen_file(rng, names), gen_file(rng, names)) for _ in range(rng.randint(2, 3))]
+        res = multi_case(ctx, pairs)
+        ctx.case(("multi", tuple(pairs)), nontrivial=True)
+        ctx.count("multi_sync_lists")
+        if res:
+            ctx.violation(res["detail"], res)
     for p in sorted(glob.glob(os.path.join(VERIF, "corpus", "C18", "*.json"))):
         data = unjson(json.load(open(p)))
         ctx.case(("corpus", p))
@@ -169,4 +206,6 @@ def replay(ctx, data):
     if data.get("no_failing_input_found"):
         print(json.dumps(data.get("no_longer_checks"), indent=1)[:3000])
         return False
+    if data.get("multi"):
+        return multi_case(ctx, [tuple(x) for x in data["pairs"]]) is None
     return one_case(ctx, data["a"], data["b"], check_model=False, same_mtime=bool(data.get("same_mtime"))) is None
